@@ -45,8 +45,8 @@ def gen_cases(sh):
         maxrows = 4 if tier == 'thorough' else 3
         cache = {}
         for slice_, q in sp_['qs'][lo:hi]:
-            if q['items'][0][0] == 'agg' and q['items'][0][2] != 'U':
-                continue
+            if (q['items'][0][0] == 'agg' and q['items'][0][2] != 'U') or slice_ == 'big':
+                continue      # JavaScript numbers cannot hold integers above 2**53: not language-neutral
             if slice_ not in cache:
                 cache[slice_] = c03.tables_for(sp_, slice_, maxrows)
             for A in cache[slice_]:
